@@ -5,6 +5,7 @@
 import Mashu.Wire
 import Mashu.Tz
 import Mashu.ToDict
+import Mashu.Args
 import Mashu.Generated
 open Lean
 
@@ -96,6 +97,19 @@ def dispatchToDict (j : Json) : Except String Json := do
   pure (Json.mkObj [("impl", ofKVs (ToDict.toDictImpl eq b kwImpl fvs)),
                     ("spec", ofKVs (ToDict.project eq (ToDict.effective b kwSpec) fvs))])
 
+/-- C07: static argument assembly of the generated constructor call and Python's binding of it -/
+def dispatchArgs (j : Json) : Except String Json := do
+  let fs ← (← arr (j.getObjValD "layout")).toList.mapM (fun f => do
+    pure ({ name := (← str (f.getObjValD "name")), hasDefault := getB f "has_default", kwOnly := getB f "kw_only",
+            init := getB f "init" true, kwSeen := opt3 (f.getObjValD "kw_seen") } : Args.FieldL))
+  let present ← (← arr (j.getObjValD "present")).toList.mapM str
+  let a := Args.assemble fs false false
+  let b := Args.bind fs (a.1.map (fun n => n)) (a.2.map (fun n => (n, n)) ++ present.map (fun n => (n, n)))
+  let bj : Json := match b with
+    | some asg => Json.arr (asg.map (fun kv => Json.arr #[Json.str kv.1, Json.str kv.2])).toArray
+    | none => Json.null
+  pure (Json.mkObj [("pos", Json.arr (a.1.map Json.str).toArray), ("kw", Json.arr (a.2.map Json.str).toArray), ("bind", bj)])
+
 def dispatch (j : Json) : Except String Json := do
   let op ← str (j.getObjValD "op")
   match op with
@@ -106,6 +120,7 @@ def dispatch (j : Json) : Except String Json := do
       | none => pure (Json.mkObj [("minutes", Json.null)])
   | "pack" | "unpack" | "roundtrip" | "conf" => dispatchCore op j
   | "todict" => dispatchToDict j
+  | "args" => dispatchArgs j
   | _ => throw s!"unknown op {op}"
 
 end Mashu
